@@ -275,6 +275,7 @@ func (x *Exec) knownDisj() *Term {
 
 // report a feasible violation: cond is the violating condition (already known sat under pc with model m)
 func (x *Exec) report(cond *Term, msg string, isPanic bool) {
+	x.pathFlagged = true
 	// is the violation also possible outside every listed known finding?
 	kd := x.knownDisj()
 	if !(kd.isC && kd.c == 0) {
